@@ -76,6 +76,9 @@ Definition only_gget_faults (l : list fev) : bool :=
 (* ---- crash invariant: no grant whose originating code still indexes a session ---- *)
 Definition no_code_twice (st : store) : Prop :=
   forall g s, In g (st_gsess st) -> In s (st_asess st) -> g_code g = a_code s -> a_code s = 0.
+(* authorization codes recorded in grants are empty or were minted before operation n *)
+Definition gcodes_old (n : nat) (st : store) : Prop :=
+  forall g, In g (st_gsess st) -> g_code g = 0 \/ exists j, (j < n)%nat /\ g_code g = mint j KCode.
 
 (* ---- the storage-call sequence of each flow (DESIGN.md Appendix A), as a regular expression
    over call kinds; a run under faults performs a prefix of a word of its flow ---- *)
